@@ -551,7 +551,9 @@ class Engine(
                 "Use lsst.daf.relation.Processor to evaluate transfers first."
             )
         relation = self.conform(relation)
-        return self._select_to_executable(relation, extra_columns)
+        # The columns are used once per operand of a union, and tested for
+        # emptiness, so a one-shot iterator has to be captured first.
+        return self._select_to_executable(relation, list(extra_columns))
 
     def _select_to_executable(
         self,
